@@ -96,7 +96,11 @@ type rpRep struct {
 	s  S
 }
 
-// rpDecodeReport: the report as a receiver sees it (parsed from the wire bytes).
+// rpDecodeReport: the report as a receiver sees it (parsed from the wire bytes).  The administrative
+// record itself - the payload of the report bundle - goes into the case as bytes and is decoded by
+// the MODEL's status-report decoder in the driver (the fields decoded here with the implementation's
+// own decoder are kept for a cross-check only: an encoder and a decoder that agree with each other
+// but not with the format would otherwise pass).
 func rpDecodeReport(raw []byte, t0, t1 bpv7.DtnTime) S {
 	b, err := bpv7.ParseBundle(bytes.NewReader(raw))
 	if err != nil {
@@ -117,10 +121,14 @@ func rpDecodeReport(raw []byte, t0, t1 bpv7.DtnTime) S {
 	}
 	p := b.PrimaryBlock
 	rb := sr.RefBundle
+	var payload []byte
+	if pl, perr := b.PayloadBlock(); perr == nil {
+		payload = pl.Value.(*bpv7.PayloadBlock).Data()
+	}
 	return L(Sym("rep"), LL(items), U(uint64(sr.ReportReason)), U(uint64(p.BundleControlFlags)), eidS(p.SourceNode), eidS(p.Destination),
 		eidS(p.ReportTo), U(p.Lifetime),
 		L(eidS(rb.SourceNode), U(rb.Timestamp[0]), U(rb.Timestamp[1]), B(rb.IsFragment), U(rb.FragmentOffset), U(rb.TotalDataLength)),
-		I(len(b.CanonicalBlocks)))
+		I(len(b.CanonicalBlocks)), X(payload), U(uint64(t0)), U(uint64(t1)))
 }
 
 func rpEnvS() S {
@@ -640,7 +648,7 @@ func genC15report(o *Out, r *Rng, thorough bool) {
 	w.strayReports(o)
 	w.destroy()
 	// (c) retries from the store
-	nRetry := 3
+	nRetry := 6
 	if thorough {
 		nRetry = 16
 	}
